@@ -1131,6 +1131,7 @@ func c11HardDocs(r *Rng) []struct {
 		mk("doctype-subset-pi", "", " a [<?p ]?>]", ""),
 		mk("pi-content-gt", "", "", "<?p a>b?>"),
 		mk("pi-content-gt", "", "", "<?p x > y ?>"),
+		{"attr-crlf", buildDoc([]xitem{{kind: itStart, s: "a", attrs: []xattr{{lead: " ", name: "b", q: '"', val: "x\r\ny"}}, void: true}})},
 	}
 }
 
